@@ -9,7 +9,19 @@ formulas — not a hook in /repo.
 
 from __future__ import annotations
 
+import sys
+
 import numpy
+
+
+def py_depth() -> int:
+    """Number of Python frames on the interpreter stack right now."""
+    f = sys._getframe()
+    n = 0
+    while f is not None:
+        n += 1
+        f = f.f_back
+    return n
 
 
 class InjectedFault(Exception):
@@ -189,6 +201,7 @@ class Ctx:
         self.total_reads = 0
 
     sim = None  # set by the check when substituted defaults must be told apart
+    pending_base = None
 
     def is_substituted(self, var, period) -> bool:
         sim = self.sim
@@ -215,6 +228,9 @@ class Ctx:
         self.rd_stack = []  # sites of the variable reads in progress, outermost first
         self.catcher = None  # site of the read whose formula handles the failure
         self.caught = []  # [(site of that read, the exception it received)]
+        # depth of the top-level call (handed over by C18's stack-exhaustion mode just before)
+        self.base_depth, self.pending_base = self.pending_base, None
+        self.max_depth = 0  # deepest formula entry seen, in Python frames
 
     def count_of(self, var):
         return self.counts.get(var, 1)
@@ -225,6 +241,10 @@ class Ctx:
         self.kinds.append(("enter", var))
         if len(self.frames) >= MAX_ENTERS:
             raise RunTooBig(var)
+        if self.base_depth is not None:
+            d = py_depth()
+            if d > self.max_depth:
+                self.max_depth = d
         frame = Frame(self, var, period, len(self.frames), self.depth)
         self.frames.append(frame)
         if self.call_stack:
